@@ -70,9 +70,12 @@ JudgeBig(rec) ==
   \*  run-time function table)
   ELSE LET ran == {b \in Backends \ {"interp"} : o.runs[b].class \in {"value", "fail"}} IN
        (IF o.runs["closure"].class \notin {"value", "fail"} THEN {"accept_closure"} ELSE {})
-       \cup (IF \E b1, b2 \in ran : o.runs[b1].class # o.runs[b2].class
+       \cup (IF \E b1, b2 \in ran \ {"vmct"} : o.runs[b1].class # o.runs[b2].class
                                      \/ (o.runs[b1].class = "value" /\ NormVal(o.runs[b1].v) # NormVal(o.runs[b2].v))
              THEN {"agree"} ELSE {})
+       \cup (IF "vmct" \in ran /\ \E b \in ran : o.runs[b].class # o.runs["vmct"].class
+                                     \/ (o.runs[b].class = "value" /\ NormVal(o.runs[b].v) # NormVal(o.runs["vmct"].v))
+             THEN {"agree_vmct"} ELSE {})
 Judge(rec) ==
   IF "big" \in DOMAIN rec THEN JudgeBig(rec) ELSE
   LET o == rec.obs
@@ -83,10 +86,12 @@ Judge(rec) ==
       \* C18 speaks about numbers that are identical or differ by more than the tolerance
       perB == IF InBandPair(rec.e) THEN perB0 \ {"sameness_" \o b : b \in Backends} ELSE perB0
       ran == IF died THEN {} ELSE {b \in Backends : o.runs[b].class \in {"value", "fail"}}
-      agree == \A b1, b2 \in ran :
-                  /\ o.runs[b1].class = o.runs[b2].class
-                  /\ (o.runs[b1].class = "value" => NormVal(o.runs[b1].v) = NormVal(o.runs[b2].v))
-                  /\ LogNorm(o.runs[b1].log) = LogNorm(o.runs[b2].log)
+      Same2(b1, b2) == /\ o.runs[b1].class = o.runs[b2].class
+                       /\ (o.runs[b1].class = "value" => NormVal(o.runs[b1].v) = NormVal(o.runs[b2].v))
+                       /\ LogNorm(o.runs[b1].log) = LogNorm(o.runs[b2].log)
+      \* (the call-threaded loop separately: its known instruction limit must not hide a disagreement of the others)
+      agree == \A b1, b2 \in ran \ {"vmct"} : Same2(b1, b2)
+      agreeCT == "vmct" \notin ran \/ \A b \in ran : Same2("vmct", b)
       quiet == \A b \in ran : o.runs[b].stdout = <<>>
   IN (IF died THEN {"total"} ELSE {})
      \cup (IF ~died /\ ~(o.front.class = "ok" /\ o.ast = rec.e) THEN {"front"} ELSE {})
@@ -94,6 +99,7 @@ Judge(rec) ==
      \cup (IF ~died /\ run.acc /\ o.infer.acc /\ o.infer.ty # run.ty THEN {"type"} ELSE {})
      \cup perB
      \cup (IF ~died /\ ~agree THEN {"agree"} ELSE {})
+     \cup (IF ~died /\ ~agreeCT THEN {"agree_vmct"} ELSE {})
      \cup (IF ~died /\ ~HasCall(rec.e, N_print) /\ ~quiet THEN {"stdout"} ELSE {})
 
 Skip(rec) == IF "big" \in DOMAIN rec THEN "" ELSE
